@@ -732,7 +732,6 @@ func genAlias(r *Rng, n int, w *bufio.Writer) {
 	}
 }
 
-
 // ---------- flist ----------
 
 func runFlist(t *Toks) string {
